@@ -42,6 +42,13 @@ struct RecState {
 /// kinds: plain withCode infeas solCheck unsupported optionError readError fmtError systemError stdExn foreign
 /// Does nothing unless the variable is set and names this site.
 void rec_fault(const char *site);
+/// C09: std features can be switched off per run: env RECSOLVER_FEATURES = comma-separated "-NAME" items
+/// (e.g. "-WARMSTART" makes recsolver a driver with MIPSTART but without WARMSTART, like solvers/visitor).
+/// Default (variable unset): every feature recsolver declares is on.
+bool rec_feature(const char *name);
+/// a std feature whose availability is decided per run (same overload the ALLOW_STD_FEATURE macro defines, not constexpr)
+#define REC_SWITCHABLE_STD_FEATURE( name ) \
+  static bool STD_FEATURE_QUERY_FN( const STD_FEATURE_STRUCT_NM( name )& ) { return rec_feature(#name); }
 
 struct RecCommonInfo {
   RecState *st() const { return st_; }
